@@ -7,6 +7,7 @@ import (
 	"io"
 	"log"
 	"sync"
+	"sync/atomic"
 	"testing"
 	"time"
 
@@ -52,6 +53,8 @@ type Case struct {
 	// RetransmitInterval. 1: the peer sends application answers (CCA, success) nobody asked for;
 	// 2: the peer sends application requests (RAR) that a handler of the client answers with success;
 	// 4: the client application writes requests (CCR) of its own. None of it answers a DWR.
+	// 8 (only when every DWR is answered anyway): the peer also sends success DWAs nobody asked for,
+	// more often than the WatchdogInterval; the watchdog requests must keep coming.
 	AppTraffic int `json:"app_traffic,omitempty"`
 }
 
@@ -126,6 +129,7 @@ func runOnce(c Case) result {
 	cers, ceaFed, earlyDWR := 0, false, false
 	var dwas [][]byte // watchdog answers written by the client
 	var pending sync.WaitGroup
+	var appWrites int32
 	event := make(chan struct{}, 256)
 	mc.WriteHook = func(b []byte, accept func([]byte)) (int, error) {
 		start := time.Now()
@@ -196,6 +200,15 @@ func runOnce(c Case) result {
 			case event <- struct{}{}:
 			default:
 			}
+		case h.Code == 272 && h.Flags&0x80 != 0:
+			// a request of the client application: every fourth one stays inside the transport for two
+			// watchdog intervals (a peer that reads slowly) - a watchdog request that comes due meanwhile
+			// has to wait for the connection like any other writer
+			// (not when a handler of the connection answers requests of the peer: its answers would
+			// queue behind the stalled write and keep the reader from the watchdog answers)
+			if c.AppTraffic&2 == 0 && atomic.AddInt32(&appWrites, 1)%4 == 0 {
+				time.Sleep(2 * c.w())
+			}
 		}
 		return len(b), nil
 	}
@@ -244,6 +257,10 @@ func runOnce(c Case) result {
 					mc.Feed(refcodec.EncodeMessage(refcodec.Header{Version: 1, Flags: 0x80, Code: 258, App: 0, HopByHop: 0xa000 + i, EndToEnd: 0xa100 + i},
 						[]*refcodec.Node{{Code: 264, Flags: 0x40, Payload: []byte("srv.example")}, {Code: 296, Flags: 0x40, Payload: []byte("example")}}, false))
 				}
+				if c.AppTraffic&8 != 0 {
+					// watchdog answers nobody asked for (duplicates of a chatty peer), more often than the interval
+					mc.Feed(dwaFor(refcodec.Header{HopByHop: 0xb000 + i, EndToEnd: 0xb100 + i}, false))
+				}
 				if c.AppTraffic&4 != 0 {
 					rq := diam.NewRequest(272, 4, nil)
 					rq.NewAVP(avp.OriginHost, avp.Mbit, 0, datatype.DiameterIdentity(host))
@@ -266,6 +283,11 @@ func runOnce(c Case) result {
 
 	// observe until the last planned DWR has run its course
 	budget := time.Duration(len(c.Plans))*(c.w()+time.Duration(c.MaxRetransmits+1)*c.r()) + 3*time.Second
+	if c.AppTraffic != 0 {
+		// with traffic arriving all the time the scripted peer's "wait until the reader is parked"
+		// (up to 2 s inside a Write) may run to its limit on a loaded machine: an upper bound only
+		budget += time.Duration(len(c.Plans)+1) * 2 * time.Second
+	}
 	deadline := time.Now().Add(budget)
 	expectClose := false
 	for _, p := range c.Plans {
@@ -335,6 +357,9 @@ func runOnce(c Case) result {
 		}
 	}
 
+	if atomic.LoadInt32(&mc.Overlap) != 0 {
+		return result{fail: ev.Failf("overlapping-writes", "two Write calls were inside the client connection's transport at the same time: a watchdog request was written while a write of the application (stalled by a slow peer) was still under way")}
+	}
 	// --- assertions on every observed DWR
 	prevAckEnd := handshook
 	for d, txs := range obs {
@@ -415,7 +440,7 @@ func runOnce(c Case) result {
 			return result{timing: true, fail: ev.Failf("responsive-peer-closed", "every DWR was answered with success but the client closed the connection (observed %d DWRs)", len(obs))}
 		}
 		if len(obs) <= len(c.Plans) {
-			return result{timing: false, fail: ev.Failf("watchdog-stopped", "%d DWRs were answered; no further DWR was sent within %v (observed %d)", len(c.Plans), budget, len(obs))}
+			return result{timing: true, fail: ev.Failf("watchdog-stopped", "%d DWRs were answered; no further DWR was sent within %v (observed %d)", len(c.Plans), budget, len(obs))}
 		}
 	}
 	return result{}
@@ -499,6 +524,14 @@ func genCase(t *rapid.T) Case {
 			break
 		}
 	}
+	allAnswered := true
+	for _, p := range c.Plans {
+		allAnswered = allAnswered && c.answered(p) && p.AnswerAt == 1 // (an unsolicited answer would stand in for a late one)
+	}
+	if allAnswered && rapid.IntRange(0, 3).Draw(t, "unsolicited-dwas") == 0 {
+		// (only while every request is answered anyway: an unsolicited success answer is as good as a solicited one)
+		c.AppTraffic |= 8
+	}
 	return c
 }
 
@@ -506,6 +539,9 @@ func classify(c Case) (bool, []string) {
 	cl := []string{fmt.Sprintf("budget:%d", c.MaxRetransmits+1)}
 	if c.PeerDWRs > 0 {
 		cl = append(cl, "peer-sends-watchdog-requests-too")
+	}
+	if c.AppTraffic&8 != 0 {
+		cl = append(cl, "unsolicited-watchdog-answers-meanwhile")
 	}
 	if c.AppTraffic != 0 {
 		cl = append(cl, "application-traffic-meanwhile")
